@@ -1254,7 +1254,6 @@ func (p *Prog) removesPath(in ssa.Instruction, path ssa.Value) bool {
 	return false
 }
 
-
 // sliceWithControl: backSlice plus, for every phi in it, the branch
 // conditions that decide which edge the phi is entered over (a && b lowered
 // to control flow makes the result depend on a only through the branch).
@@ -1303,7 +1302,7 @@ func ruleC03RuleFile(c *Checker) {
 		}
 		for _, ci := range callsTo(fn, func(o *types.Func) bool { return isFunc(o, "os", "Stat") || isFunc(o, "os", "Lstat") }) {
 			named := false
-			for w := range p.backSlice(ci.Common().Args[0], 0) {
+			for w := range p.backSlice(ci.Common().Args[0], 2) {
 				if k, ok := constString(w); ok && strings.Contains(k, ".terraformignore") {
 					named = true
 				}
